@@ -348,7 +348,8 @@ type rootPseudoClassSelector struct {
 // Match implements :root
 // "In HTML, :root represents the <html> element and is identical to the selector html"
 func (s rootPseudoClassSelector) Match(n *html.Node) bool {
-	return n.Type == html.ElementNode && n.DataAtom == atom.Html
+	// an <html> element nested in foreign content (svg, math) is not the root
+	return n.Type == html.ElementNode && n.DataAtom == atom.Html && (n.Parent == nil || n.Parent.Type == html.DocumentNode)
 }
 
 func hasAttr(n *html.Node, attr string) bool {
